@@ -298,6 +298,29 @@ func C19(ctx *core.Ctx) {
 								how = append(how, "call of map-insert-only "+QName(t))
 							}
 						}
+						// an ordered aggregate (slice, string) handed back by the callee and
+						// carried round the loop is an append in disguise:
+						// `acc = collect(item, acc)` accumulates in map order
+						if v, isV := x.(ssa.Value); isV {
+							ordered := false
+							switch tt := v.Type().Underlying().(type) {
+							case *types.Slice:
+								ordered = true
+							case *types.Basic:
+								ordered = tt.Info()&types.IsString != 0
+							}
+							if ordered && v.Referrers() != nil {
+								for _, u := range *v.Referrers() {
+									if ph, isPhi := u.(*ssa.Phi); isPhi && loop[ph.Block()] {
+										if ok, why := sortedBeforeUse(ph, loop); !ok {
+											problem = "carries the " + v.Type().String() + " returned by " + c.ShortName() + " round the loop (accumulation in map order): " + why
+										} else {
+											how = append(how, "accumulated slice sorted before use")
+										}
+									}
+								}
+							}
+						}
 					}
 				}
 			}
@@ -359,6 +382,13 @@ func C19(ctx *core.Ctx) {
 				c, _ := ssax.AsCall(x)
 				full := c.FullName()
 				bad := full == "time.Now" || strings.HasPrefix(full, "math/rand.") || full == "os.Getenv" || full == "os.Getpid" || full == "os.Hostname" || full == "os.Environ" || strings.HasPrefix(full, "crypto/rand.") || full == "os.LookupEnv"
+				if full == "path/filepath.EvalSymlinks" || full == "os.Readlink" {
+					// the names the user gave are the location; resolving links replaces them
+					// by wherever the links happen to point on this machine
+					nsrc++
+					ctx.Violate("C19.R2", QName(fn)+" › call "+full, cc.IPos(in), "a source path is resolved through symbolic links: module name, include directory and `../` includes are then taken from the link target's location instead of the path the user named — the same sources give different output (or another file is included) depending on how the tree is linked on this machine")
+					return
+				}
 				if (full == "path/filepath.Abs" || full == "os.Getwd") && fn.Pkg == cc.Pkg("parser") {
 					// the root file is made absolute once, by Compile; inside the parser a
 					// path resolved against the working directory makes *what is parsed*
